@@ -14,6 +14,19 @@ def reader_job(ctx, kind):
     return s, r
 
 
+def h3_mux_job(ctx):
+    """The UDP multiplexer over HTTP/3 with the real direct forwarder: DgramReader.tla's segmentations decide how the client's
+    record stream is cut into QUIC stream writes; three records on two flows to loopback echo servers; the statement is the oracle
+    (every datagram at exactly its destination, one socket per flow, replies labelled with their flow, payloads intact)."""
+    ctx.build("c07h3")
+    s = ctx.tlc("MCDgramReader", "MCDgramReader.cfg", name="MCDgramReader.h3", workers=2, timeout=600, coverage=False)
+    ctx.spec_must_hold(s)
+    r = ctx.harness("c07h3", ["--vectors", s["out"], "--max", "32" if ctx.thorough else "12"], name="c07h3", env={"VERIF_ROOT": ROOT}, timeout=900)
+    if r["counters"].get("flows_round_trips", 0) == 0 and not r.get("violations") and not any("watchdog" in n for n in r.get("notes", [])):
+        raise ToolError("no round trip through the HTTP/3 multiplexer was made")
+    return r
+
+
 def run(ctx):
     ctx.build("c06")
     acts = ("Deliver", "StepLength", "StepFixedHeader", "StepAppName", "StepPayload", "StepDropping")
